@@ -322,7 +322,7 @@ def reasm_native_replay(v):
     L.append('    let mut token: Vec<Option<(BufId, Epoch)>> = vec![None; %d];' % len(dg))
     cull = u.get('cull')
     for pos, (d, i) in enumerate(u['order']):
-        off, ln, mf = dg[d]['pieces'][i]
+        off, ln, mf = (0, dg[d]['total'], False) if i == 'W' else dg[d]['pieces'][i]
         ident, src, dst, proto, ttl = dg[d]['hdr']
         if cull is not None and cull[0] == pos:
             if cull[1] == 'stale':
@@ -330,8 +330,12 @@ def reasm_native_replay(v):
             else:
                 L.append(f'    if let Some(k) = token.iter().position(|t| t.is_some()) {{ let (b, e) = token[k].unwrap(); r.maybe_cull_segment(b, e); got[k].clear(); token[k] = None; }}')
         L.append(f'    {{ let h = hdr({20 + ln}, {off // 8}, {"true" if mf else "false"}, {ident}, {src}, {dst}, {proto}, {ttl});')
-        L.append(f'      let res = r.receive_packet(h, Message::new(p{d}[{off}..{off + ln}].to_vec())); got[{d}].insert({i});')
-        L.append(f'      let want = got[{d}].len() == {dg[d]["n"]};')
+        if i == 'W':
+            L.append(f'      let res = r.receive_packet(h, Message::new(p{d}[{off}..{off + ln}].to_vec()));')
+            L.append('      let want = true;')
+        else:
+            L.append(f'      let res = r.receive_packet(h, Message::new(p{d}[{off}..{off + ln}].to_vec())); got[{d}].insert({i});')
+            L.append(f'      let want = got[{d}].len() == {dg[d]["n"]};')
         L.append('      match res {')
         L.append(f'        ReceivePacketResult::Complete(rh, rb) => {{ if !want {{ bad.push("step {pos}: complete too early".into()); }}')
         L.append(f'            if rb.to_vec() != p{d} {{ bad.push(format!("step {pos}: body len {{}} differs from original len {{}}", rb.len(), p{d}.len())); }}')
@@ -453,6 +457,7 @@ fn lpm(entries: &[(u32, u32, u32)], a: u32) -> Option<u32> {
 }
 fn put(entries: &mut Vec<(u32, u32, u32)>, id: u32, len: u32, v: u32) { entries.retain(|e| !(e.0 == id && e.1 == len)); entries.push((id, len, v)); }
 fn del(entries: &mut Vec<(u32, u32, u32)>, id: u32, len: u32) { entries.retain(|e| !(e.0 == id && e.1 == len)); }
+fn cur(entries: &[(u32, u32, u32)], id: u32, len: u32) -> Option<u32> { entries.iter().find(|e| e.0 == id && e.1 == len).map(|e| e.2) }
 '''
 
 
@@ -460,23 +465,26 @@ def iptable_native_replay(v):
     from mirx import native
     u = v['unit']
     vals = v.get('values', {})
-    L = ['#[test]\nfn mirx_replay_0() {', '    println!("\\nREPLAY-BEGIN mirx_replay_0");', '    let mut t: IpTable<u32> = IpTable::new();', '    let mut e: Vec<(u32, u32, u32)> = Vec::new();']
+    L = ['#[test]\nfn mirx_replay_0() {', '    println!("\\nREPLAY-BEGIN mirx_replay_0");', '    let mut t: IpTable<u32> = IpTable::new();', '    let mut e: Vec<(u32, u32, u32)> = Vec::new(); let mut bad: Vec<String> = Vec::new();']
     for i, kind in enumerate(u['ops']):
         addr = int(vals.get(f'addr{i}', 0x0a000000 + i)) & 0xffffffff
         ln = min(32, int(vals.get(f'len{i}', 24))) if kind in ('add', 'remove') else 32
         val = int(vals.get(f'val{i}', i + 1)) & 0xffffffff
         L.append(f'    {{ let len: u32 = {ln}; let mask: u32 = if len == 0 {{ 0 }} else {{ (!0u32) << (32 - len) }}; let id = {addr}u32 & mask;')
+        L.append('      let prev = cur(&e, id, len);')
         if kind == 'add':
-            L.append(f'      t.add(Ipv4Net::new(Ipv4Address::from({addr}u32), Ipv4Mask::from_bitcount(len)), {val}); put(&mut e, id, len, {val}); }}')
+            L.append(f'      let r = t.add(Ipv4Net::new(Ipv4Address::from({addr}u32), Ipv4Mask::from_bitcount(len)), {val}); put(&mut e, id, len, {val});')
         elif kind == 'add_direct':
-            L.append(f'      t.add_direct(Ipv4Address::from({addr}u32), {val}); put(&mut e, id, len, {val}); }}')
+            L.append(f'      t.add_direct(Ipv4Address::from({addr}u32), {val}); let r = prev; put(&mut e, id, len, {val});')
         elif kind == 'remove':
-            L.append(f'      t.remove(Ipv4Net::new(Ipv4Address::from({addr}u32), Ipv4Mask::from_bitcount(len))); del(&mut e, id, len); }}')
+            L.append(f'      let r = t.remove(Ipv4Net::new(Ipv4Address::from({addr}u32), Ipv4Mask::from_bitcount(len))); del(&mut e, id, len);')
         else:
-            L.append(f'      t.remove_direct(Ipv4Address::from({addr}u32)); del(&mut e, id, len); }}')
+            L.append(f'      let r = t.remove_direct(Ipv4Address::from({addr}u32)); del(&mut e, id, len);')
+        L.append(f'      if r != prev {{ bad.push(format!("operation {i} ({kind}) returned {{:?}}, the value stored for that network was {{:?}}", r, prev)); }} }}')
     a = int(vals.get('lookup', 0)) & 0xffffffff
     L.append(f'    let got = t.get_recipient(Ipv4Address::from({a}u32)); let want = lpm(&e, {a});')
-    L.append('    println!("OP 0 RESULT {}", if got == want { "AGREE".to_string() } else { format!("get_recipient = {:?}, longest-prefix reference = {:?}", got, want) });')
+    L.append('    if got != want { bad.push(format!("get_recipient = {:?}, longest-prefix reference = {:?}", got, want)); }')
+    L.append('    println!("OP 0 RESULT {}", if bad.is_empty() { "AGREE".to_string() } else { bad.join(" | ") });')
     L.append('}')
     out, rc = native.run_tests(IPTABLE_REPLAY + '\n'.join(L), append_to='src/ip_table.rs', test_filter='mirx_replay_0')
     lines = native.op_lines(out)
@@ -640,6 +648,27 @@ def udp_native_replay(v):
     u = v['unit']
     vals = v.get('values', {})
     g = lambda k, d=0: int(vals.get(k, d))
+    if u.get('kind') == 'open_and_listen':
+        la, lp, ra, rp = g('laddr') & 0xffffffff, g('lport') & 0xffff, g('raddr') & 0xffffffff, g('rport') & 0xffff
+        T = ['#[test]\nfn mirx_replay_0() {', '    println!("\\nREPLAY-BEGIN mirx_replay_0");',
+             '    let machine = Arc::new(Machine::new().with(Udp::new()).with(Ipv4::new(Default::default())).with(Rec::<0>).with(Rec::<1>));',
+             '    let udp = machine.protocol::<Udp>().unwrap(); let mut bad: Vec<String> = Vec::new(); let mut pre = 0usize; let mut same = false;',
+             f'    let local = Endpoint::new(Ipv4Address::from({la}u32), {lp}); let remote = Endpoint::new(Ipv4Address::from({ra}u32), {rp});']
+        if u['prebound']:
+            pa, pp = g('baddr0') & 0xffffffff, g('bport0') & 0xffff
+            T.append(f'    let p = Endpoint::new(Ipv4Address::from({pa}u32), {pp}); udp.listen(TypeId::of::<Rec<0>>(), p, machine.clone()).unwrap(); pre = 1; same = p == local;')
+        T += ['    let rt = tokio::runtime::Builder::new_current_thread().enable_all().build().unwrap();',
+              '    let r = rt.block_on(udp.open_and_listen(TypeId::of::<Rec<1>>(), crate::protocols::utility::Endpoints::new(local, remote), machine.clone()));',
+              '    let n = udp.listen_bindings.len();',
+              '    if same { if n != 1 || r.is_ok() { bad.push(format!("open_and_listen on a bound socket: {} bindings, ok={}", n, r.is_ok())); } }',
+              '    else { if n != pre + 1 { bad.push(format!("{} bindings after open_and_listen, expected {}", n, pre + 1)); }',
+              '           match udp.listen_bindings.get(&local) { Some(b) => { if *b != TypeId::of::<Rec<1>>() { bad.push("endpoints.local is bound to another application".into()); } } None => bad.push("endpoints.local is not bound after open_and_listen".into()) } }',
+              '    println!("OP 0 RESULT {}", if bad.is_empty() { "AGREE".to_string() } else { bad.join(" | ") });', '}']
+        out, rc = native.run_tests(UDP_REPLAY + '\n'.join(T), append_to='src/protocols/udp.rs', test_filter='mirx_replay_0')
+        lines = native.op_lines(out)
+        if not lines:
+            return False, 'native replay did not run: ' + out[-600:]
+        return ('AGREE' not in lines[0]), lines[0]
     nb, npay = u['bindings'], u['payload']
     L = ['#[test]\nfn mirx_replay_0() {', '    println!("\\nREPLAY-BEGIN mirx_replay_0");',
          '    let machine = Arc::new(Machine::new().with(Udp::new()).with(Ipv4::new(Default::default())).with(Rec::<0>).with(Rec::<1>).with(Rec::<2>));',
@@ -677,7 +706,7 @@ def udp_part(ctx):
     from mirx import udpspec
     return generic_part(
         ctx, 'udp-listen-demux', udpspec.units(ctx.tier), udpspec.worker,
-        unit_name=lambda u: f'{u["bindings"]} listen() calls with symbolic (address, port), then one datagram with {u["payload"]} payload bytes',
+        unit_name=lambda u: (f'open_and_listen (synchronous prefix of the async fn) with symbolic endpoints' + (', one symbolic binding made before' if u['prebound'] else '')) if u.get('kind') == 'open_and_listen' else f'{u["bindings"]} listen() calls with symbolic (address, port), then one datagram with {u["payload"]} payload bytes',
         unit_desc='real Udp::listen / Udp::demux / UdpSession::receive / Ipv4::listen / UdpHeader::from_bytes_ipv4 MIR and the real Message; machine, Control, DashMap and upstream applications modelled',
         replay_fn=udp_native_replay,
         bounds='0..=3 bindings with symbolic 32-bit address and 16-bit port (the solver decides which coincide and which are 0.0.0.0), datagram with symbolic source/destination address and port and '
@@ -703,6 +732,9 @@ def router_native_replay(v):
     by the real IpTable, the real re-serialised header, and - through Arp's resolve_hook - whether a forward was started and with which
     (local address, next hop, interface).  The packet bytes handed to the Pci session after ARP resolution are not observable."""
     from mirx import native
+    if ':task:' in v.get('key', ''):
+        return False, ('this obligation is about what the spawned forwarding task does after `arp.resolve(..).await`; the function-level native replay cannot observe '
+                       'the frames handed to the Pci session, so the symbolic counterexample stays unconfirmed')
     u = v['unit']
     vals = v.get('values', {})
     g = lambda k, d=0: int(vals.get(k, d))
@@ -752,13 +784,13 @@ def router_part(ctx):
     return generic_part(
         ctx, 'arprouter-one-hop', routerspec.units(ctx.tier), routerspec.worker,
         unit_name=lambda u: f'{u["routes"]} routes (gateways {u["gateways"]}, interfaces {u["slots"]}), payload {u["payload"]} bytes',
-        unit_desc='real ArpRouter::demux MIR (shim crate) with the real IpTable, Ipv4Header::serialize and Message; symbolic routes, gateways, local addresses and a fully symbolic IPv4 header; tokio::spawn records the captured next hop / slot / packet',
+        unit_desc='real ArpRouter::demux MIR (shim crate) with the real IpTable, Ipv4Header::serialize and Message; symbolic routes, gateways, local addresses and a fully symbolic IPv4 header; tokio::spawn records the captured next hop / slot / packet; the forwarding task (coroutine body) is then run with the ARP outcome chosen by the model (resolved / failed) and Pci recording',
         replay_fn=router_native_replay,
         bounds='0..=2 (thorough 3) routes with symbolic network (mask length 0..=32) and symbolic gateway or direct route, two interfaces with symbolic local addresses; header: TOS, id, DF/MF, offset, TTL, protocol, addresses symbolic; payload 0..=3 symbolic bytes',
         outside='multi-router topologies, loops, ARP resolution and delivery to the destination host (async Arp::resolve / Network::send); "at most initial-TTL hops" follows from the one-hop decrement by the decreasing measure TTL (stated, not checked)',
-        assumptions=['Machine::protocol::<Arp>() returns an opaque Arp; tokio::spawn is modelled as recording the future\'s captured variables without running it',
+        assumptions=['Machine::protocol::<Arp>() returns an opaque Arp; tokio::spawn is modelled as recording the future\'s captured variables; the recorded coroutine body is run separately with `Arp::resolve(..).await` modelled as returning Ok(symbolic MAC) or Err, `Pci::open` / `PciSession::send_pci` recording (slot, destination MAC, packet)',
                      'native replay runs demux on a real Machine in a tokio runtime and observes panic / return value, the real IpTable lookup, the real header re-serialisation and, through '
-                     'Arp::resolve_hook, the (local address, next hop, interface) of the started forward; only a violation confined to the packet bytes handed on after ARP resolution cannot be '
+                     'Arp::resolve_hook, the (local address, next hop, interface) of the started forward; a violation confined to what the forwarding task does after ARP resolution (roles `task:*`) cannot be '
                      'confirmed natively and is then reported INCONCLUSIVE (exit 2)'])
 
 
